@@ -36,7 +36,7 @@ theorem track_locked (s : PLL) {n : Nat} (hn : 65 * pllP k + 3 ≤ n) : Locked k
 
 omit hF in
 /-- the proved step count is below the bound claimed in C06 -/
-theorem pllP_bound {n : Nat} (hn : 64 * (2 ^ 32 / k) + 64 ≤ (n : Int)) : 65 * pllP k + 4 ≤ n := by
+theorem pllP_bound {n : Nat} (hn : 64 * (2 ^ 32 / k) + 64 ≤ (n : Int)) : 65 * pllP k + 5 ≤ n := by
   have hP := (pllP_spec hk0).2
   have h1 : (1 : Int) ≤ 2 ^ 31 / k := by
     rw [Int.le_ediv_iff_mul_le (by omega)]; omega
@@ -46,4 +46,51 @@ theorem pllP_bound {n : Nat} (hn : 64 * (2 ^ 32 / k) + 64 ≤ (n : Int)) : 65 * 
     rw [Int.mul_assoc]; omega
   omega
 end
+
+/-- the `n` input samples following the sample `x` when the input phase advances by `F` per sample (wrapping) -/
+def constFreqInputs (F : Int) : Int → Nat → List Int
+  | _, 0 => []
+  | x, n + 1 => wrapI 32 (x + F) :: constFreqInputs F (wrapI 32 (x + F)) n
+
+/-- feeding a list of present samples with a fixed gain -/
+def PLL.feedList (k : Int) (s : PLL) (xs : List Int) : PLL := xs.foldl (fun s x => s.update (some x) k) s
+
+theorem feed_x (k F : Int) (s : PLL) : (s.feed k F).x = wrapI 32 (s.x + F) := rfl
+
+theorem feedList_constFreq (k F : Int) (n : Nat) : ∀ s : PLL,
+    s.feedList k (constFreqInputs F s.x n) = PLL.track k F n s := by
+  induction n with
+  | zero => intro s; rfl
+  | succ n ih =>
+    intro s
+    rw [track_succ, ← ih (s.feed k F)]
+    rfl
+
+theorem constFreqInputs_length (F : Int) (n : Nat) : ∀ x, (constFreqInputs F x n).length = n := by
+  induction n with
+  | zero => intro x; rfl
+  | succ n ih => intro x; simp [constFreqInputs, ih]
+
+/-- the `i`-th following sample is `x + (i+1)·F` modulo `2^32` -/
+theorem constFreqInputs_get (F : Int) (n : Nat) : ∀ (x : Int) (i : Nat) (hi : i < n),
+    (constFreqInputs F x n)[i]'(by rw [constFreqInputs_length]; exact hi) = wrapI 32 (x + (i + 1) * F) := by
+  induction n with
+  | zero => intro x i hi; omega
+  | succ n ih =>
+    intro x i hi
+    cases i with
+    | zero => simp [constFreqInputs]
+    | succ i =>
+      simp only [constFreqInputs, List.getElem_cons_succ]
+      rw [ih _ i (by omega), wrapI_add_wrapI_left]
+      congr 1; push_cast; ring
+
+theorem track_x (k F : Int) (n : Nat) : ∀ s : PLL, inI 32 s.x = true →
+    (PLL.track k F n s).x = wrapI 32 (s.x + n * F) := by
+  induction n with
+  | zero => intro s hs; simp [PLL.track, wrapI_of_in (by decide) hs]
+  | succ n ih =>
+    intro s hs
+    rw [track_succ, ih _ (by rw [feed_x]; exact wrapI_in (by decide) _), feed_x, wrapI_add_wrapI_left]
+    congr 1; push_cast; ring
 end Idsp
